@@ -166,6 +166,11 @@ def t_runaway(rt, n, mixed=0):
     if mixed == 3:
         got = yield {"a": ConstFuture(0), "b": t_runaway.asynq(rt, n - 1, mixed), "c": Future(lambda: 1)}
         return got["b"] + 1
+    if mixed == 4 and "sv0" in rt.sv:
+        # every level of the runaway chain holds an override of its own while it waits for the next one
+        with rt.sv["sv0"].override(("runaway-level", n)):
+            v = yield t_runaway.asynq(rt, n - 1, mixed)
+        return v + 1
     v = yield t_runaway.asynq(rt, n - 1)
     return v + 1
 
